@@ -398,6 +398,8 @@ class InputFileScenario(BaseScenario):
             changed = []
             for _ in range(r.randint(0, 3)):
                 k2 = keys[r.randrange(len(keys))]
+                if k2 == "geoh5":
+                    continue     # (switching the workspace is refused by design once one is set: judged in single-value calls only)
                 data_a[k2] = self.domain(k2, env, r)
                 changed.append(k2)
             if "one_a" in data_a and r.random() < 0.3:
